@@ -174,8 +174,10 @@ def strategy_(draw, tier):
         ann.append(["file_label", "label of file %d" % draw(st.integers(0, 99))])
     if draw(st.booleans()):
         ann.append(["file_desc", "desc " * draw(st.integers(1, 30))])
-    if nvd and draw(st.booleans()):
-        ann.append(["obj_label", 0, "vdata label"])
+    for vi in range(nvd):
+        # labels on several objects (distinct texts): a tool must keep each one with its own object
+        if draw(st.booleans()):
+            ann.append(["obj_label", vi, "vdata label" if vi == 0 else "label of vdata number %d" % vi])
     if not objs:
         objs.append(draw(vd_st(0, nsess)))
     return {"nsess": nsess, "ndds": draw(st.sampled_from([0, 0, 1, 4, 40])), "cache": draw(st.booleans()),
@@ -634,12 +636,16 @@ def check(case, d, labels):
             for ty, lst in ((2, [a for a in model.get("_fileann", []) if a[0] == "file_label"]),
                             (3, [a for a in model.get("_fileann", []) if a[0] == "file_desc"]),
                             (0, model.get("_objann", []))):
+                # the position of an annotation among those of its type is not specified: the i-th one read
+                # must be one of the texts written (each exactly once)
+                mx = max([len(a[1]) for a in lst] + [0]) + 1
                 for i, a in enumerate(lst):
                     q.call("i", "ANselect", V("an"), i, ty, bind="ann")
                     # labels are returned NUL-terminated: the buffer must hold one byte more than the text
-                    l1 = q.call("i", "ANreadann", V("ann"), Out(len(a[1]) + 1), len(a[1]) + 1)
+                    l0 = q.call("i", "ANannlen", V("ann"))
+                    l1 = q.call("i", "ANreadann", V("ann"), Out(mx), mx)
                     l2 = q.call("i", "ANgetdatainfo", V("ann"), Out(4), Out(4))
-                    ln["items"].append((ty, a[1], l1, l2))
+                    ln["items"].append((ty, [x[1] for x in lst], l1, l2, l0))
                     q.call("i", "ANendaccess", V("ann"))
             q.call("i", "ANend", V("an"))
             plan.append(("an", None, ln))
@@ -926,9 +932,14 @@ def check(case, d, labels):
                     raise Fail("image %s: bytes at the attribute's reported location are not its values" % o["name"],
                                program=prog)
         elif what == "an":
-            for ty, text_, l1, l2 in ln["items"]:
-                if r(l1) != 0 or qq.res[l1].bufs[0][:len(text_)] != text_:
+            used = {}
+            for ty, texts_, l1, l2, l0 in ln["items"]:
+                n_ = r(l0)
+                text_ = qq.res[l1].bufs[0][:max(n_, 0)]
+                used.setdefault(ty, [])
+                if r(l1) != 0 or text_ not in texts_ or used[ty].count(text_) >= texts_.count(text_):
                     raise Fail("annotation: ANreadann differs from what was written", type=ty, program=prog)
+                used[ty].append(text_)
                 if r(l2) == -1:
                     raise Fail("annotation: ANgetdatainfo failed", type=ty, reader=rdr, program=prog)
                 off, = un_i32s(qq.res[l2].bufs[0])
